@@ -9,7 +9,8 @@ Proof: FP/Props/C05.lean.
    simplified product rows / appended subset constraints of `_apply_safety_optimizations` change nothing (T3, T4).
 Tie: K2 LP-dump equality of the Lean generators `kcovercLPS` / `kfdcLPS` with the REAL constructors built with random
 subsets of the safety flags ON (adapters kcoverc_safety, kfdc_safety; SCC numbering, antichain and the iteration order
-of the trusted set are captured from the real run), plus the option-free encoders.
+of the trusted set are captured from the real run; the contracts of the first two — the only hypotheses the `…_full`
+pipeline theorems make about them — are re-checked by direct search), plus the option-free encoders.
 Oracle: metamorphic end-to-end runs (K5): the same input under sampled subsets of every documented option flag of every
 class must give the same solved status and the same objective as the all-off baseline.
 """
@@ -35,6 +36,10 @@ THEOREMS = ["FP.Props.C05.opt_preserved", "FP.Props.C05.sat_append", "FP.Props.C
             "FP.Props.C05.kfdc_safety_options_preserve_feasibility",
             "FP.Props.C05.kfdc_safety_pipeline_preserves_feasibility",
             "FP.Props.C05.pipeline_data_sound",
+            # the same under the contracts of the two oracle parameters only (C06 incompatible_sound)
+            "FP.Props.C05.kcoverc_safety_pipeline_preserves_optimum_full",
+            "FP.Props.C05.kfdc_safety_pipeline_preserves_feasibility_full",
+            "FP.Props.C05.pipeline_data_sound_full",
             # non-vacuity (README graph)
             "FP.Props.C05.readme_maxSafeSeqs", "FP.Props.C05.readme_data"]
 IMPORTS = ["FP.Props.C05"]
@@ -53,9 +58,12 @@ MODEL_SCOPE = ("PROVEN (Lean, full): abstract optimum preservation under added c
                "edges_set_to_zero/one; a generic version for any layer-symmetric model/objective on _encode_walks (applies to "
                "the error models' row variants). Hypotheses of these theorems: well-formed input graph, subset constraints made "
                "of graph edges with coverage <= 1, distinct product-block names (kfdc), w_max > 0 when some edge carries flow "
-               "(kfdc), and for the fragment computed by the code the two hypotheses of C06's incompatible_sound_partial "
-               "(the captured antichain is an antichain; no shared parallel inter-SCC edge) — C06 T6 in full is still a "
-               "statement (incompatible_sound_FullStatement). ORACLE-ONLY (metamorphic runs): the DAG models' options (safe "
+               "(kfdc), and for the fragment computed by the code (`…_pipeline_…_full`, `pipeline_data_sound_full`) only the "
+               "contracts of the two captured oracle parameters: `mapping` numbers the strongly connected components and the "
+               "captured antichain is pairwise unreachable in the expanded condensation (C06 `incompatible_sound`; C17 "
+               "`antichain_sound` proves the second for the extraction; both re-checked by direct search in every real "
+               "construction, histogram label t6_contracts). The older `…_pipeline` forms under AntichainHyp / "
+               "NoSharedParallel are kept; NoSharedParallel is not a property of the maximal safe sequences. ORACLE-ONLY (metamorphic runs): the DAG models' options (safe "
                "paths / sequences, zero edges, subpath-constraint variants, largest antichain), flow-safe paths, greedy, "
                "min-generating-set and subgraph-scanning lower bounds, guessed weights, kFlowDecompCycles with given_weights "
                "(rows weights_i = w_i are not layer-symmetric; only used as a heuristic upper bound by MinFlowDecompCycles), "
@@ -254,6 +262,13 @@ def run(ctx):
     rng = ctx.rng
     k2.run_k2(ctx, K2_ADAPTERS, ctx.n(20, 300))
     k2.run_k2(ctx, K2_SAFETY_ADAPTERS, ctx.n(100, 450))
+    # the hypotheses of the `…_full` theorems about the captured SCC numbering / antichain are re-checked by direct
+    # search in every real construction (enc/_safety.py: t6_contracts); a violation is a broken proof obligation
+    for name in K2_SAFETY_ADAPTERS:
+        h = ctx.rep.suite("K2." + name)["histogram"]
+        if h.get("t6_contracts:VIOLATED"):
+            ctx.disagree("K2." + name, {"t6_contracts": "VIOLATED", "count": h["t6_contracts:VIOLATED"]}, None, None,
+                         note="the captured antichain is not pairwise unreachable in the expanded condensation")
     per = ctx.n(4, 16)
     first = True
     for cls in models.ALL_CLASSES:
